@@ -174,7 +174,13 @@ def main(tier):
                     return sc, None, "flood"
                 return sc, lines, p.returncode
             except subprocess.TimeoutExpired:
-                return sc, None, "timeout"
+                # not before a second run with twelve times the patience does not end either
+                try:
+                    p = subprocess.run([dseq] + sc["args"], stdout=subprocess.PIPE, stderr=subprocess.PIPE, timeout=60, text=True, errors="replace")
+                    lines = p.stdout.splitlines()
+                    return (sc, None, "flood") if len(lines) > 20000 else (sc, lines, p.returncode)
+                except subprocess.TimeoutExpired:
+                    return sc, None, "timeout"
         execs = []
         with ThreadPoolExecutor(max_workers=core.NCPU) as ex:
             for sc, lines, rc in ex.map(one, scs):
